@@ -137,7 +137,13 @@ PhysOf(x) == UNION {x[i].p .. (x[i].p + x[i].len - 1) : i \in 1 .. Len(x)}
 VARIABLES ext, prev, op, freed
 evars == <<ext, prev, op, freed>>
 EInit == ext = <<>> /\ prev = <<>> /\ op = [e |-> "init", l |-> 0, p |-> 0, u |-> FALSE, s |-> 0, en |-> 0] /\ freed = {}
+\* bigalloc: callers keep logical and physical clusters aligned (punch_extent_blocks: "We assume that all blocks in a
+\* logical cluster map to blocks from the same physical cluster, and that the offsets within the [pl]clusters match")
+ClusterConsistent(x, L, P) ==
+   /\ P % C = L % C
+   /\ \A L2 \in DOMAIN MapOf(x) : L2 # L => ((L2 \div C = L \div C) <=> (ClusterOf(MapOf(x)[L2][1]) = ClusterOf(P)))
 DoSet(L, P, u) == /\ (Len(ext) = 0 /\ P = 0) => DevEmptyUnmap                 \* precondition
+                  /\ (C > 1 /\ P # 0) => ClusterConsistent(ext, L, P)
                   /\ (P # 0 => P \notin PhysOf(ext) \/ (L \in DOMAIN MapOf(ext) /\ MapOf(ext)[L][1] = P))   \* callers map free blocks
                   /\ ext' = SetBmap(ext, L, P, u) /\ prev' = ext
                   /\ op' = [e |-> "set", l |-> L, p |-> P, u |-> u, s |-> 0, en |-> 0] /\ freed' = {}
